@@ -32,8 +32,21 @@ Hypothesis Hb : In b (live s).
 Hypothesis Hbp : bk_p b = p.
 Hypothesis Ho : obj_of c x p.
 
+(* p is handed out: it is not on the free list, so at least one object of the slab is reserved *)
+Lemma nres_pos : 1 <= sl_nres x /\ N.of_nat (length (sl_avail x)) + 1 <= nobj c (sl_item x).
+Proof.
+  pose proof (I_slab _ _ _ I x Hx) as S.
+  assert (Hp_not_avail : ~ In p (sl_avail x)).
+  { intros H. destruct (so_avail _ _ _ _ S p H) as [_ Hn]. apply Hn. rewrite <- Hbp. apply in_map. assumption. }
+  assert (L : N.of_nat (length (p :: sl_avail x)) <= nobj c (sl_item x)).
+  { apply obj_list_len.
+    - constructor; [assumption|apply (so_nodup _ _ _ _ S)].
+    - intros a [<- |Ha]; [assumption|apply (so_avail _ _ _ _ S a Ha)]. }
+  cbn [length] in L. pose proof (so_nres _ _ _ _ S). lia.
+Qed.
+
 Definition free_small_state : state :=
-  mkState (upd_slab (sl_frame x) (fun _ => set_avail x (p :: sl_avail x) (sl_nres x)) (slabs s)) (larges s)
+  mkState (upd_slab (sl_frame x) (fun _ => set_avail x (p :: sl_avail x) (sl_nres x - 1)) (slabs s)) (larges s)
           (match sl_avail x with
            | [] => upd_nth (partial s) (N.to_nat (sl_idx x)) (ins_sorted (sl_frame x))
            | _ => partial s end)
@@ -45,7 +58,7 @@ Proof.
   pose proof (I_slab _ _ _ I x Hx) as S.
   unfold free_small. rewrite (obj_contains c F _ _ x p S Ho). cbn [negb].
   rewrite (find_blk_in p (live s) b (I_live_nodup _ _ _ I) Hb Hbp).
-  assert (E : (sl_nres x =? 0) = false) by (apply N.eqb_neq; pose proof (so_nres _ _ _ _ S); lia).
+  assert (E : (sl_nres x =? 0) = false) by (apply N.eqb_neq; pose proof nres_pos; lia).
   rewrite E.
   assert (E2 : match sl_avail x with [] => false | a :: _ => negb (sl_contains c x a) end = false).
   { destruct (sl_avail x) as [|a r] eqn:Ea; [reflexivity|].
@@ -57,7 +70,7 @@ Lemma free_small_state_inv : Inv c k free_small_state.
 Proof.
   pose proof (I_slab _ _ _ I x Hx) as Sx.
   pose proof (slab_frames_nodup c k s I) as Hnd.
-  set (x' := set_avail x (p :: sl_avail x) (sl_nres x)).
+  set (x' := set_avail x (p :: sl_avail x) (sl_nres x - 1)).
   assert (Hin : forall y, In y (upd_slab (sl_frame x) (fun _ => x') (slabs s)) <->
                           (In y (slabs s) /\ sl_frame y <> sl_frame x) \/ y = x').
   { intros y. apply (in_upd_slab_const (sl_frame x) x x' (slabs s) y Hnd Hx eq_refl). }
@@ -72,7 +85,8 @@ Proof.
     - cbn. constructor; assumption.
     - intros a [<- |Ha]; [split; [apply obj_of_set_avail; exact Ho|exact Hp_gone]|].
       destruct (s7 a Ha) as [O1 O2]. split; [apply obj_of_set_avail; assumption|].
-      intros H. apply O2. eapply live_ptrs_remove_sub; eauto. }
+      intros H. apply O2. eapply live_ptrs_remove_sub; eauto.
+    - unfold x', set_avail, sl_item. cbn [sl_nres sl_avail sl_idx length]. pose proof nres_pos as NP. unfold sl_item in *. lia. }
   assert (Hall : forall y, In y (upd_slab (sl_frame x) (fun _ => x') (slabs s)) ->
                            slab_ok c k (map bk_p (remove_blk p (live s))) y).
   { intros y Hy. apply Hin in Hy. destruct Hy as [[Hy Hne]| ->]; [|exact Sx'].
